@@ -77,6 +77,8 @@ def run(cx):
     cx.rule("C03.R7", "K1", "a scan that resumes a sleeping child inline (child.exec) ends its invocation there: the resumed child may finish inside the call and its own ending already reviews the parent, closes it and schedules the successor - going on would schedule the successor a second time")
     r7(cx)
     cx.rule("C03.R6", "struct", "bulk closing (abort / undo) visits descendants transitively and covers every open state class")
+    cx.rule("C03.R8", "K1", "a client action that ends an act ends what is open beneath it: an arm of Task::update that writes a terminal state on the act itself also closes (or refuses for) the act's open descendants - a generating act (parallel / sequence / block) answered directly is otherwise closed over the acts it generated, and the process reports a non-error ending with those acts still open")
+    r8_action_closes_children(cx)
     r1(cx)
     r2(cx)
     r3(cx)
@@ -629,3 +631,42 @@ def back_target_closed(cx, rule):
               **({} if ok else {"consequence": "the old task of the step stays in Running for ever beneath a workflow that completes (and a workflow that waits for everything beneath it never ends)"}))
     if n_back == 0:
         cx.undecide(rule, "the Back arm's redo_task on the result of Task::backs was not found")
+
+
+def r8_action_closes_children(cx):
+    m = cx.m
+    pa = Prov(m, "alias")
+    from rules.common import event_arm_of
+    f = m.one(r"^%s::update$" % TASK)
+    by_arm = {}
+    for c in f.calls():
+        if c.q != T.Q_SET_STATE:
+            continue
+        recv = pa.root(f, c.args[0])
+        v = pa.root(f, c.args[1])
+        if not (recv[:2] == ("param", 1) and not recv[3] and v[0] == "agg" and v[2] in T.TERMINAL and v[2] != "Error"):
+            continue
+        arms = event_arm_of(m, f, c.b)
+        if not arms or len(arms) != 1:
+            continue
+        by_arm.setdefault(sorted(arms)[0], []).append((c, v[2]))
+    if not by_arm:
+        cx.undecide("C03.R8", "no arm of Task::update writes a terminal state on the act itself")
+        return
+    n = 0
+    for arm, writes in sorted(by_arm.items()):
+        closes = []
+        for c in f.calls():
+            a = event_arm_of(m, f, c.b)
+            if not a or arm not in a or len(a) != 1:
+                continue
+            if c.q.endswith("Task::children") and pa.root(f, c.args[0])[:2] == ("param", 1):
+                closes.append("children()")
+            if re.search(r"Context::(abort_task|undo_task)$", c.q):
+                closes.append(short_name(c.q))
+        n += 1
+        c0, S = writes[0]
+        cx.ob("C03.R8", "act-ends-with-open-children:%s" % arm, bool(closes),
+              "the %s arm writes %s on the act and %s" % (arm, S, ("closes what is beneath it (%s)" % ", ".join(sorted(set(closes)))) if closes else
+                                                            "never looks at the act's children: an act that generated acts (parallel / sequence / block) is closed over them"), c0.loc)
+    cx.floor("C03.R8", 4)
